@@ -12,11 +12,11 @@ package core
 // decided by the solver); strings len <= 6.
 
 type vhState struct {
-	wk, rk, en       string // property values
+	wk, rk, en          string // property values
 	hasWK, hasRK, hasEN bool
-	mutations        int
-	disclosures      int
-	parents          []string
+	mutations           int
+	disclosures         int
+	parents             []string
 }
 
 func (s *vhState) Count(ctx *Context) int  { return 0 }
@@ -251,5 +251,49 @@ func VH_C19_parent(op int) {
 	vassert(up.mutations == m0, "parent-not-mutated")
 	vassert(vimplies(vand(readOK, enabled), disclosed), "permitted-inherited-read-reaches-parent")
 	_ = err
+	vreach("end")
+}
+
+// VH_C19_explicit: protection established on a real state by adding the property fact
+// under an id the caller chose (AddFact("lock", {"!writeKey": K})) protects the location
+// exactly as when it is set through the property API. prop 0 writeKey, 1 readKey,
+// 2 enabled="no".
+func VH_C19_explicit(kind, prop int) {
+	env := vhNewEnv(kind)
+	_, err := env.loc.AddFact(env.ctx, "f1", Map{"a": "b"})
+	vassume(err == nil)
+	key := vsymStrN("prop.key", 4)
+	vassume(key != "")
+	var pf Map
+	switch prop {
+	case 0:
+		pf = Map{"!writeKey": key}
+	case 1:
+		pf = Map{"!readKey": key}
+	case 2:
+		pf = Map{"!enabled": "no"}
+	}
+	_, err = env.loc.AddFact(env.ctx, "lock", pf)
+	vassume(err == nil)
+	ctx := NewContext("caller")
+	ctx.WriteKey = vsymStrN("ctx.writeKey", 4)
+	ctx.ReadKey = vsymStrN("ctx.readKey", 4)
+	_, werr := env.loc.AddFact(ctx, "f2", Map{"a": "c"})
+	_, rerr := env.loc.GetFact(ctx, "f1")
+	switch prop {
+	case 0:
+		vassert((werr == nil) == (ctx.WriteKey == key), "mutation-only-with-write-access")
+		vassert(rerr == nil, "permitted-read-proceeds")
+	case 1:
+		vassert((rerr == nil) == (ctx.ReadKey == key), "disclosure-only-with-read-access")
+	case 2:
+		vassert(werr != nil, "mutation-only-with-write-access")
+	}
+	if werr != nil {
+		_, gerr := env.loc.GetFact(env.ctx, "f2")
+		if prop != 2 {
+			vassert(gerr != nil, "refused-mutation-leaves-state-unchanged")
+		}
+	}
 	vreach("end")
 }
